@@ -204,7 +204,7 @@ class Interp:
             if cond.is_const():
                 return cond.const_value() != 0
             return self.decide(Cond("!=", (cond, 0)))
-        if isinstance(cond, Rec):
+        if isinstance(cond, (Rec, ConstMatch)):
             return True
         if isinstance(cond, Ext):
             return cond.sym_truth(self)
@@ -227,20 +227,28 @@ class Interp:
         return None
 
     # ------------------------------------------------------------------ names
-    def module_ns(self, mod: Module, name: str):
+    def module_ns(self, mod: Module, name: str, upto: Optional[int] = None):
+        """Value of a module-level name.  `upto`: the line of the module-level statement being evaluated - tables
+        are then seen as they were when that statement ran at import (later NAME.update(...) not yet applied)."""
         if name in mod.classes:
             return ClassRef(mod.name, name)
         if name in mod.functions and "." not in name:
             return Closure(mod, mod.functions[name], None)
         if name in mod.assigns:
-            # last assignment wins; evaluated lazily in module scope
-            key = (mod.name, name)
+            nodes = mod.assigns[name]
+            if upto is not None:
+                earlier = [n for n in nodes if n.lineno < upto]
+                if not earlier:
+                    upto = None
+                else:
+                    nodes = earlier
+            key = (mod.name, name, upto)
             if key in self._modcache:
                 return self._modcache[key]
             self._modcache[key] = Unknown(f"recursive module value {name}")
             try:
-                v = self.eval(mod.assigns[name][-1], {"__mod__": mod})
-                v = self._apply_module_updates(mod, name, v)
+                v = self.eval(nodes[-1], {"__mod__": mod, "__modline__": nodes[-1].lineno})
+                v = self._apply_module_updates(mod, name, v, nodes[-1].lineno, upto)
             except (Undecided, NeedDecision) as e:
                 v = Unknown(f"module value {mod.name}.{name}: {e}")
             self._modcache[key] = v
@@ -267,16 +275,24 @@ class Interp:
 
     _modcache: Dict = {}
 
-    def _apply_module_updates(self, mod: Module, name: str, v):
+    def _apply_module_updates(self, mod: Module, name: str, v, after: int = 0, upto: Optional[int] = None):
+        """Module-level statements that modify a table after its assignment: NAME.update(...), NAME[key] = value."""
         if isinstance(v, dict):
             for st in mod.tree.body:
+                if st.lineno <= after or (upto is not None and st.lineno >= upto):
+                    continue
+                if isinstance(st, ast.Assign) and any(isinstance(t, ast.Name) and t.id == name for t in st.targets):
+                    continue
+                env = {"__mod__": mod, name: v, "__modline__": st.lineno}
                 if (isinstance(st, ast.Expr) and isinstance(st.value, ast.Call)
                         and isinstance(st.value.func, ast.Attribute) and st.value.func.attr == "update"
                         and isinstance(st.value.func.value, ast.Name) and st.value.func.value.id == name):
-                    env = {"__mod__": mod, name: v}
                     arg = self.eval(st.value.args[0], env)
                     if isinstance(arg, dict):
                         v.update(arg)
+                elif isinstance(st, ast.Assign) and len(st.targets) == 1 and isinstance(st.targets[0], ast.Subscript) \
+                        and isinstance(st.targets[0].value, ast.Name) and st.targets[0].value.id == name:
+                    v[_h(self.eval(st.targets[0].slice, env))] = self.eval(st.value, env)
         return v
 
     def _external(self, module: str, attr: str):
@@ -290,7 +306,7 @@ class Interp:
                 if all(isinstance(x, (str, int)) for x in a):
                     r = getattr(_re_mod, attr)(*a)  # constant folding of a pure function on literal arguments
                     if attr in ("match", "fullmatch"):
-                        return None if r is None else Unknown("match object")
+                        return None if r is None else ConstMatch(r)
                     return r
                 raise Undecided(f"re.{attr} on symbolic text")
             return PyCallable(_re)
@@ -331,7 +347,14 @@ class Interp:
                 return e[name]
             e = e.get("__parent__")
         mod = self._mod(env)
-        r = self.module_ns(mod, name)
+        upto = None
+        e = env
+        while e is not None:
+            if "__modline__" in e:
+                upto = e["__modline__"]
+                break
+            e = e.get("__parent__")
+        r = self.module_ns(mod, name, upto)
         if not isinstance(r, _Missing):
             return r
         if name in BUILTINS:
@@ -406,6 +429,17 @@ class Interp:
                         order.append(st.target.id)
                     info[st.target.id] = (m, st.value)
         cache[c] = [(n, info[n]) for n in order]
+        return cache[c]
+
+    def class_field_annotations(self, c: ClassRef) -> Dict[str, str]:
+        cache = self.repo.__dict__.setdefault("_sym_ann", {})
+        if c not in cache:
+            d = {}
+            for m, cd in reversed(self.class_mro(c)):
+                for st in cd.body:
+                    if isinstance(st, ast.AnnAssign) and isinstance(st.target, ast.Name):
+                        d[st.target.id] = unparse(st.annotation)
+            cache[c] = d
         return cache[c]
 
     def find_method(self, c: ClassRef, name: str):
@@ -748,7 +782,7 @@ class Interp:
         return list(self._elts(n.elts, env))
 
     def e_Set(self, n, env):
-        return frozenset(_h(x) for x in self._elts(n.elts, env))
+        return set(_h(x) for x in self._elts(n.elts, env))
 
     def _elts(self, elts, env):
         out = []
@@ -838,6 +872,9 @@ class Interp:
             if isinstance(l, Rec):
                 return self.rec_op(l, "__matmul__", [r])
             raise Undecided("@ on non-record")
+        if isinstance(l, (set, frozenset)) and isinstance(r, (set, frozenset)) and isinstance(op, (ast.BitOr, ast.BitAnd, ast.Sub, ast.BitXor)):
+            res = {ast.BitOr: l | r, ast.BitAnd: l & r, ast.Sub: l - r, ast.BitXor: l ^ r}[type(op)]
+            return frozenset(res) if isinstance(l, frozenset) else set(res)
         names = {ast.Add: ("__add__", "__radd__"), ast.Sub: ("__sub__", "__rsub__"), ast.Mult: ("__mul__", "__rmul__"),
                  ast.Div: ("__truediv__", "__rtruediv__")}
         if isinstance(l, Rec) or isinstance(r, Rec):
@@ -865,7 +902,13 @@ class Interp:
         if isinstance(op, ast.Mult) and (isinstance(l, (str, tuple, list)) or isinstance(r, (str, tuple, list))):
             return l * r
         if isinstance(op, ast.Mod) and isinstance(l, str):
-            return l  # string formatting: keep template
+            vals = r if isinstance(r, tuple) else (r,)
+            if all(isinstance(x, (int, str)) and not isinstance(x, bool) for x in vals):
+                try:
+                    return l % (r if isinstance(r, tuple) else (r,))
+                except (TypeError, ValueError):
+                    raise PyRaise("TypeError", node, "bad % format")
+            return l  # string formatting over symbolic values: keep template
         if not (is_num(l) or isinstance(l, bool)) or not (is_num(r) or isinstance(r, bool)):
             raise Undecided(f"arithmetic on {type(l).__name__}, {type(r).__name__}")
         if isinstance(l, int) and isinstance(r, int) and not isinstance(op, ast.Div):
@@ -1050,6 +1093,11 @@ class Interp:
             if isinstance(item, str):
                 return item in container
             raise Undecided("substring test on symbolic")
+        if isinstance(container, range):
+            try:
+                return _idx(item) in container
+            except Undecided:
+                raise
         if isinstance(container, dict):
             return _h(item) in container
         if isinstance(container, (tuple, list, frozenset, set)):
@@ -1119,8 +1167,12 @@ class Interp:
                     return Cond(at, (b,) + tuple(a))
                 return SymStr(call)
             return PyCallable(_m)
-        if isinstance(base, (list, tuple, dict, frozenset)):
+        if isinstance(base, (list, tuple, dict, frozenset, set)):
             return PyCallable(lambda it, a, k, b=base, at=attr: it.container_method(b, at, a, k))
+        if isinstance(base, ConstMatch):
+            if attr in ("group", "groups", "span", "start", "end"):
+                return PyCallable(lambda it, a, k, b=base, at=attr: getattr(b.m, at)(*a))
+            raise Undecided(f"match.{attr}")
         if isinstance(base, Unknown):
             return Unknown(f"{base.why}.{attr}")
         if is_num(base):
@@ -1186,9 +1238,28 @@ class Interp:
                 return dict(b)
             if at == "clear":
                 b.clear(); return None
-        if isinstance(b, frozenset):
-            if at in ("union", "intersection", "difference"):
-                return getattr(b, at)(*[frozenset(x) for x in a])
+        if isinstance(b, (set, frozenset)):
+            if at in ("union", "intersection", "difference", "symmetric_difference"):
+                return getattr(b, at)(*[set(_h(y) for y in self.iterate(x)) for x in a])
+            if at in ("issubset", "issuperset", "isdisjoint"):
+                return getattr(b, at)(set(_h(y) for y in self.iterate(a[0])))
+            if isinstance(b, set):
+                if at == "add":
+                    b.add(_h(a[0])); return None
+                if at == "discard":
+                    b.discard(_h(a[0])); return None
+                if at == "remove":
+                    if _h(a[0]) not in b:
+                        raise PyRaise("KeyError")
+                    b.remove(_h(a[0])); return None
+                if at == "update":
+                    for x in a:
+                        b.update(_h(y) for y in self.iterate(x))
+                    return None
+                if at == "clear":
+                    b.clear(); return None
+                if at == "copy":
+                    return set(b)
         raise Undecided(f"method {at} on {type(b).__name__}")
 
     def e_Subscript(self, n, env):
@@ -1257,7 +1328,7 @@ class Interp:
         return tuple(self.e_ListComp(n, env))
 
     def e_SetComp(self, n, env):
-        return frozenset(_h(x) for x in self.e_ListComp(n, env))
+        return set(_h(x) for x in self.e_ListComp(n, env))
 
     def e_DictComp(self, n, env):
         d = {}
@@ -1395,7 +1466,9 @@ class Interp:
             return list(self.iterate(a[0])) if a else []
         if name == "tuple":
             return tuple(self.iterate(a[0])) if a else ()
-        if name in ("set", "frozenset"):
+        if name == "set":
+            return set(_h(x) for x in self.iterate(a[0])) if a else set()
+        if name == "frozenset":
             return frozenset(_h(x) for x in self.iterate(a[0])) if a else frozenset()
         if name == "dict":
             d = dict(a[0]) if a else {}
@@ -1411,6 +1484,8 @@ class Interp:
                 return a[0]
             return simplify_num(fn_atom("abs", a[0]))
         if name == "round":
+            if isinstance(a[0], Ext) and hasattr(a[0], "sym_round"):
+                return a[0].sym_round(self, a[1] if len(a) > 1 else None)
             if isinstance(a[0], Unknown):
                 return a[0]
             x = simplify_num(a[0])
@@ -1448,6 +1523,8 @@ class Interp:
                 return str(x)
             if isinstance(x, (float, Fraction)):
                 return str(float(x))
+            if isinstance(x, Ext):
+                return x
             if isinstance(x, SymStr):
                 return x
             return SymStr(f"{{{x!r}}}")
@@ -1521,10 +1598,12 @@ class Interp:
             out = []
             for n, (m, dn) in self.class_fields(c):
                 try:
-                    dv = self.eval(dn, {"__mod__": m}) if dn is not None else Unknown("MISSING")
+                    dv = self.eval(dn, {"__mod__": m}) if dn is not None else Builtin("dataclasses.MISSING")
                 except (Undecided, PyRaise):
                     dv = Unknown("default")
-                out.append(Rec(ClassRef("dataclasses", "Field"), {"name": n, "default": dv, "type": Unknown("type")}))
+                ann = self.class_field_annotations(c).get(n, "")
+                ty = Builtin(ann) if ann in ("float", "int", "str", "bool") else Unknown(f"type {ann}")
+                out.append(Rec(ClassRef("dataclasses", "Field"), {"name": n, "default": dv, "type": ty}))
             return out
         if name == "operator.matmul":
             return self.binop(ast.MatMult(), a[0], a[1])
@@ -1543,6 +1622,8 @@ class Interp:
     def deepcopy(self, v):
         if isinstance(v, Ext) and hasattr(v, "sym_copy"):
             return v.sym_copy()
+        if isinstance(v, set):
+            return set(v)
         if isinstance(v, Rec):
             return Rec(v.cls, {k: self.deepcopy(x) for k, x in v.f.items()}, v.mutable)
         if isinstance(v, list):
@@ -1564,6 +1645,8 @@ class Interp:
             if all(r is False for r in res):
                 return False
             raise Undecided("isinstance undecided")
+        if isinstance(v, Builtin):
+            return False
         if isinstance(v, Unknown):
             return Unknown("isinstance of unknown")
         if isinstance(v, Ext) and hasattr(v, "sym_isinstance"):
@@ -1599,6 +1682,13 @@ class Interp:
 class PyCallable:
     def __init__(self, fn):
         self.fn = fn
+
+
+class ConstMatch:
+    """Result of a regex match on literal text (constant folding of a pure library call)."""
+
+    def __init__(self, m):
+        self.m = m
 
 
 class Ext:
@@ -1733,6 +1823,7 @@ class Outcome:
     raise_node: Any = None
     undecided: Optional[str] = None
     assumptions: List[str] = field(default_factory=list)
+    raise_msg: str = ""
 
     def cond_text(self):
         return " & ".join((repr(c) if v else f"not({c!r})") for c, v in self.decisions) or "true"
@@ -1807,7 +1898,7 @@ def explore(repo: Repo, fn, args: list, kwargs: Optional[dict] = None, max_paths
             work.append(dec + [False])
             work.append(dec + [True])
         except PyRaise as e:
-            outcomes.append(Outcome(list(it.taken), raised=e.exc_type, raise_node=e.node, assumptions=list(it.assumptions)))
+            outcomes.append(Outcome(list(it.taken), raised=e.exc_type, raise_node=e.node, assumptions=list(it.assumptions), raise_msg=str(getattr(e, 'msg', '') or '')))
         except Undecided as e:
             outcomes.append(Outcome(list(it.taken), undecided=str(e)))
         except RecursionError:
